@@ -90,10 +90,12 @@ def run_property(prop, tier, seed):
 
     whole_units = set(spec.get('whole_units', []))     # units whose every clause counts for this property, whatever its tags
 
+    depends_on = set(spec.get('depends_on', []))        # properties whose clauses this property's statement presupposes
+
     def _counts(f):
         if f.unit in whole_units:
             return True
-        return f.applies_to(prop)
+        return f.applies_to(prop) or any(f.applies_to(q) for q in depends_on)
     for u in units:
         undecided += ['%s: %s' % (u.name, x) for x in u.undecided]
         failures += [f for f in u.failures if _counts(f)]
